@@ -176,6 +176,28 @@ pub fn solo_spec(prop: &str) -> Option<SoloSpec> {
             rule: "one generator, a seeded history of 1..8 operations (generate / generate_from_arbitrary(x) incl. repeated x / reset / range and rate changes through the pub fields); every generation call is compared byte-for-byte with a fresh generator given only that call; non-trivial = 2nd or later call; distinct (output digest, call position)",
             enumerate_short: false,
         },
+        "C14" => SoloSpec {
+            prop: "C14",
+            profile: Profile { allow_unsafe: true, ..d.clone() },
+            hist_p: 0.6,
+            trace: Trace::Off,
+            spy: false,
+            runs_quick: 60_000,
+            runs_thorough: 2_500_000,
+            rule: "solo runs (40%) and histories of 1..8 operations (60%); each is executed twice on the measuring thread and only the second execution is measured: live heap bytes before Generator::new == after drop; then the history is repeated 3x on one generator with reset() and live bytes after repetition 2 and 3 must be equal; non-trivial = a leak-capable structure exists (output contains DUP or a GET-family opcode) or the history has >= 2 operations; distinct scenario digests",
+            enumerate_short: false,
+        },
+        "C09" => SoloSpec {
+            prop: "C09",
+            profile: Profile { allow_unsafe: true, wild_rates: true, long_bias: 0.02, rate_one: 0.3, flag_p: 0.5, ..d.clone() },
+            hist_p: 0.15,
+            trace: Trace::Light,
+            spy: false,
+            runs_quick: 120_000,
+            runs_thorough: 5_000_000,
+            rule: "solo mix and histories incl. unsafe mutators, out-of-range/NaN rates through the pub field, degenerate ranges, long runs (thorough: up to 50000 opcodes), executed in child worker processes on 2 MiB stacks; plus ALL fuzzer scripts of length <= 1 (quick) / <= 2 (thorough) x 6 protocols x 3 configuration passes; non-trivial = the script was exhausted, or the range is degenerate, or the rate is outside [0,1], or unsafe mode; distinct output digests",
+            enumerate_short: true,
+        },
         "C10" => SoloSpec {
             prop: "C10",
             profile: Profile { allow_unsafe: true, flag_p: 0.35, rate_one: 0.4, ..d },
@@ -481,9 +503,109 @@ pub fn n_threads() -> usize {
 }
 
 /// run indices [0, runs) of a solo-family property, sharded over threads
-pub fn sweep_solo(spec: &SoloSpec, tier: Tier, seed: u64, runs: u64, wall_cap_s: f64, known: &[KnownFinding]) -> SweepOutcome {
+/// one simulated run of a solo-family property: draw, execute, judge, account
+pub fn run_one(spec: &SoloSpec, seed: u64, tier: Tier, i: u64, runs: u64, stats: &mut Stats) -> (Scenario, Vec<Violation>) {
+    let sc = if i >= runs { enum_scenario(spec, i - runs) } else { draw_for(spec, seed, tier, i) };
+    if i >= runs {
+        stats.bump("fault.cut.enumerated_short_script(runs)");
+    }
+    let recs = if spec.prop == "C14" { vec![] } else { exec::run_scenario(&sc, trace_for(spec, &sc), spec.spy) };
+    stats.evaluations += 1;
+    if spec.prop == "C14" {
+        stats.nontrivial.insert(desc::digest(sc.to_json().to_string().as_bytes()));
+    }
+    for f in &sc.faults {
+        stats.bump(&format!("fault.{}.injected", f.kind));
+    }
+    if !sc.config.mutators.is_empty() {
+        stats.bump("fault.mutators.registered(runs)");
+    }
+    if sc.history.len() > 1 {
+        stats.bump("fault.hist.multi_op_history(runs)");
+    }
+    if sc.config.rate_via_field && !(0.0..=1.0).contains(&sc.config.rate) {
+        stats.bump("fault.cfg.rate_out_of_range_or_nan");
+    }
+    let vs = evaluate_any(spec.prop, &sc, &recs, stats);
+    if stats.samples.len() < 3 && (i % 16 == 0) {
+        stats.samples.push(json!({"run_index": i, "scenario": sc.to_json(),
+            "outputs": recs.iter().map(|r| match &r.outcome { exec::Outcome::Ok(b) => json!({"len": b.len(), "head_hex": desc::hex(&b[..b.len().min(48)])}), o => json!(format!("{:?}", o)) }).collect::<Vec<_>>()}));
+    }
+    if stats.py_samples.len() < 24 {
+        for r in &recs {
+            if let Some(b) = r.outcome.bytes() {
+                if b.len() < 20_000 {
+                    stats.py_samples.push((i, b.to_vec(), !sc.config.unsafe_mutations));
+                }
+            }
+        }
+    }
+    (sc, vs)
+}
+
+/// number of enumerated short-script runs appended after the seeded ones
+pub fn enum_count(spec: &SoloSpec, tier: Tier) -> u64 {
+    if !spec.enumerate_short {
+        return 0;
+    }
+    let scripts: u64 = match tier {
+        Tier::Quick => 1 + 256,
+        Tier::Thorough => 1 + 256 + 65_536,
+    };
+    scripts * 6 * enum_passes(spec)
+}
+
+fn enum_passes(spec: &SoloSpec) -> u64 {
+    if spec.profile.allow_unsafe {
+        3
+    } else {
+        2
+    }
+}
+
+/// e-th enumerated scenario: all fuzzer scripts of length 0, 1, 2 x 6 protocols x configuration
+/// passes (defaults | all mutators at rate 1 | the same in unsafe mode)
+pub fn enum_scenario(spec: &SoloSpec, e: u64) -> Scenario {
+    let passes = enum_passes(spec);
+    let pass = e % passes;
+    let p = ((e / passes) % 6) as u8;
+    let si = e / (passes * 6);
+    let script: Vec<u8> = if si == 0 {
+        vec![]
+    } else if si <= 256 {
+        vec![(si - 1) as u8]
+    } else {
+        let x = si - 257;
+        vec![(x >> 8) as u8, (x & 0xff) as u8]
+    };
+    let mut c = Config::default_for(p);
+    if pass >= 1 {
+        c.mutators = vec![0, 1, 2, 3, 4, 5, 6];
+        c.rate = 1.0;
+        c.allow_ext = true;
+        c.allow_buffer = true;
+        c.unsafe_mutations = pass == 2;
+    }
+    let mut sc = Scenario::solo(c, Entropy::Bytes(script));
+    sc.faults.push(desc::Fault { kind: "cut", at: sc_len(&sc), detail: "enumerated".into() });
+    sc
+}
+
+fn sc_len(sc: &Scenario) -> usize {
+    match &sc.history[0] {
+        HOp::Gen(Entropy::Bytes(b)) => b.len(),
+        _ => 0,
+    }
+}
+
+/// generic sharded sweep over run indices [0, total): `f(i, stats)` executes run i
+pub fn sweep_indices<F>(total: u64, wall_cap_s: f64, known: &[KnownFinding], shard: (u64, u64), threads: u64, on_begin_end: Option<&(dyn Fn(u64, bool) + Sync)>, f: F) -> SweepOutcome
+where
+    F: Fn(u64, &mut Stats) -> (Scenario, Vec<Violation>) + Sync,
+{
     let t0 = Instant::now();
-    let nt = n_threads() as u64;
+    let nt = threads.max(1);
+    let (shard_k, shard_n) = shard;
     let first_bad = AtomicU64::new(u64::MAX);
     let capped = std::sync::atomic::AtomicBool::new(false);
     let results: Vec<(Stats, Vec<Found>)> = std::thread::scope(|s| {
@@ -491,46 +613,33 @@ pub fn sweep_solo(spec: &SoloSpec, tier: Tier, seed: u64, runs: u64, wall_cap_s:
         for t in 0..nt {
             let first_bad = &first_bad;
             let capped = &capped;
+            let f = &f;
             hs.push(
                 std::thread::Builder::new()
-                    .stack_size(16 << 20)
+                    .stack_size(if nt == 1 && shard_n > 1 { 2 << 20 } else { 16 << 20 })
                     .spawn_scoped(s, move || {
                         let mut stats = Stats::default();
                         let mut found = vec![];
-                        let mut i = t;
-                        while i < runs {
+                        // index i belongs to shard (i % shard_n), thread ((i / shard_n) % nt)
+                        let mut j = t;
+                        loop {
+                            let i = j * shard_n + shard_k;
+                            if i >= total {
+                                break;
+                            }
                             if i > first_bad.load(Ordering::Relaxed) {
                                 break;
                             }
-                            if (i / nt) % 64 == 0 && t0.elapsed().as_secs_f64() > wall_cap_s {
+                            if (j / nt) % 64 == 0 && t0.elapsed().as_secs_f64() > wall_cap_s {
                                 capped.store(true, Ordering::Relaxed);
                                 break;
                             }
-                            let sc = draw_for(spec, seed, tier, i);
-                            let recs = exec::run_scenario(&sc, trace_for(spec, &sc), spec.spy);
-                            stats.evaluations += 1;
-                            for f in &sc.faults {
-                                stats.bump(&format!("fault.{}.injected", f.kind));
+                            if let Some(cb) = on_begin_end {
+                                cb(i, true);
                             }
-                            if !sc.config.mutators.is_empty() {
-                                stats.bump("fault.mutators.registered(runs)");
-                            }
-                            if sc.history.len() > 1 {
-                                stats.bump("fault.hist.multi_op_history(runs)");
-                            }
-                            let vs = evaluate_any(spec.prop, &sc, &recs, &mut stats);
-                            if i < 6 * nt && stats.samples.len() < 3 {
-                                stats.samples.push(json!({"run_index": i, "scenario": sc.to_json(),
-                                    "outputs": recs.iter().map(|r| match &r.outcome { exec::Outcome::Ok(b) => json!({"len": b.len(), "head_hex": desc::hex(&b[..b.len().min(48)])}), o => json!(format!("{:?}", o)) }).collect::<Vec<_>>()}));
-                            }
-                            if stats.py_samples.len() < 24 {
-                                for r in &recs {
-                                    if let Some(b) = r.outcome.bytes() {
-                                        if b.len() < 20_000 {
-                                            stats.py_samples.push((i, b.to_vec(), !sc.config.unsafe_mutations));
-                                        }
-                                    }
-                                }
+                            let (sc, vs) = f(i, &mut stats);
+                            if let Some(cb) = on_begin_end {
+                                cb(i, false);
                             }
                             for v in vs {
                                 if known_match(known, &v).is_some() {
@@ -545,7 +654,7 @@ pub fn sweep_solo(spec: &SoloSpec, tier: Tier, seed: u64, runs: u64, wall_cap_s:
                                     break;
                                 }
                             }
-                            i += nt;
+                            j += nt;
                         }
                         (stats, found)
                     })
@@ -567,6 +676,11 @@ pub fn sweep_solo(spec: &SoloSpec, tier: Tier, seed: u64, runs: u64, wall_cap_s:
         wall_s: t0.elapsed().as_secs_f64(),
         capped: capped.load(Ordering::Relaxed),
     }
+}
+
+pub fn sweep_solo(spec: &SoloSpec, tier: Tier, seed: u64, runs: u64, wall_cap_s: f64, known: &[KnownFinding]) -> SweepOutcome {
+    let total = runs + enum_count(spec, tier);
+    sweep_indices(total, wall_cap_s, known, (0, 1), n_threads() as u64, None, |i, stats| run_one(spec, seed, tier, i, runs, stats))
 }
 
 // ------------------------------------------------------------------------------------------
@@ -620,6 +734,7 @@ pub fn reproduces(prop: &str, sc: &Scenario, class: &str, trace: Trace, spy: boo
 pub fn evaluate_any(prop: &str, sc: &Scenario, recs: &[CallRecord], st: &mut Stats) -> Vec<Violation> {
     match prop {
         "C08" => crate::hist::c08(sc, recs, st),
+        "C14" => crate::leak::c14(sc, st),
         _ => evaluate(prop, sc, recs, st),
     }
 }
